@@ -306,6 +306,8 @@ class Gen:
         steps = [{"ev": "SetUpdate", "a": {"set": A}}]
         if r.random() < 0.25:
             steps.insert(0, {"ev": "ReqCap", "a": {"n": r.choice([0, 1, 2])}})  # outbound request queue (nearly) full
+        if r.random() < 0.3:
+            steps.insert(0, {"ev": "SendBusy", "a": {}})  # unbuffered broadcast queue whose reader (p2p loop) is never parked in its receive
         members = [k for k in A["keys"] if k != "g1"]
         need = q(n)
         # d1: observed; quorum reached or not;  d2: never observed locally (parked);  d3: observed + VAA arrives from a peer
@@ -490,7 +492,7 @@ def with_restart(sc, rnd):
     """The node process dies and comes back at some point of the history (new Processor on the same store); it
     re-learns the guardian set that was current (or not yet: then it has none for a while)."""
     steps = sc["steps"]
-    if len(steps) < 4 or any(st["ev"] in ("StoreDown", "ReqCap") for st in steps):
+    if len(steps) < 4 or any(st["ev"] in ("StoreDown", "ReqCap", "SendBusy") for st in steps):
         return sc
     pos = rnd.randrange(2, len(steps))
     cur = None
@@ -508,7 +510,7 @@ def with_restart(sc, rnd):
 def with_store_fault(sc, rnd):
     """The store stops answering at some point of an aggregation history (lookups and writes fail from then on)."""
     steps = sc["steps"]
-    if len(steps) < 4 or any(st["ev"] in ("StoreDown", "ReqCap", "Restart") for st in steps):
+    if len(steps) < 4 or any(st["ev"] in ("StoreDown", "ReqCap", "SendBusy", "Restart") for st in steps):
         return sc
     pos = rnd.randrange(2, len(steps))
     sc["steps"] = steps[:pos] + [{"ev": "StoreDown", "a": {"x": 0}}] + steps[pos:]
@@ -702,6 +704,8 @@ def attribute(rej, line):
     if "panic" in comps:
         props.add("C13")
         comps = comps - {"unknown"}
+        if ev == "CleanupTick":
+            props.add("C14")  # a cleanup pass that dies or blocks retries and expires nothing
         if comps == {"panic"}:
             return props, comps
         # the handler died half-way: whatever it should have done and did not (or did only partly) also speaks
